@@ -355,7 +355,9 @@ func vC14RecRunInBubble(t *testing.T, c *vh.Case, sc vC14RecScn, target int) *vC
 	time.Sleep(2*time.Minute + 2*max(sc.Interval, 0))
 	synctest.Wait()
 	cB := vc14.Owned()
-	c.Check(len(cB) == 0, "no-goroutine-after-2min", "%sgoroutines of the store 2 virtual minutes after Close: %v\n%s", tag, vc14.Summary(cB), vc14.Dump(cB, 3))
+	if !c.Check(len(cB) == 0, "no-goroutine-after-2min", "%sgoroutines of the store 2 virtual minutes after Close: %v\n%s", tag, vc14.Summary(cB), vc14.Dump(cB, 3)) {
+		c.ExitNow() // cannot be unwound
+	}
 	lateMu.Lock()
 	if sc.Kind == "provmgr" {
 		c.Check(len(late) == 0, "datastore-fenced", "%sdatastore accessed after ProviderManager.Close returned (+%v; %s; closed at event #%d %q): %v", tag, closeRet, sc, res.CloseIdx, res.CloseLabel, late)
@@ -471,7 +473,9 @@ func TestVerif_C14_provmgr_ctor(t *testing.T) {
 				time.Sleep(time.Second)
 				synctest.Wait()
 				cs := vc14.Owned()
-				c.Check(len(cs) == 0 && store.J.Len() == 0, "ctor-fail-no-goroutine", "after the failed constructor: goroutines %v, %d datastore accesses", vc14.Summary(cs), store.J.Len())
+				if !c.Check(len(cs) == 0 && store.J.Len() == 0, "ctor-fail-no-goroutine", "after the failed constructor: goroutines %v, %d datastore accesses", vc14.Summary(cs), store.J.Len()) && len(cs) > 0 {
+					c.ExitNow()
+				}
 				c.Nontrivial(fmt.Sprintf("%d/%d", n, at))
 			})
 		})
